@@ -115,6 +115,15 @@ Definition model_outward (pos : Z -> C3) (m : mesh) : bool :=
 Definition check_surface_none (m : mesh) : bool :=
   match extract_surface m with None => true | Some _ => false end.
 
+(* --- translator validation: _generate_all_faces called directly on a few rows of one type
+   returns, per group of the table, the rows element by element --- *)
+Definition probe_expect (tb : list (list (list nat))) (ncols : nat) (rows : list (list Z))
+  : list (list face) :=
+  map (fun g => flat_map (fun c => map (pick (firstn ncols c)) g) rows) tb.
+Definition check_probe (tb : list (list (list nat))) (ncols : nat) (rows : list (list Z))
+           (obs : list (list face)) : bool :=
+  eqb_list eqb_faces (probe_expect tb ncols rows) obs.
+
 Fixpoint failing_from (k : nat) (l : list bool) : list nat :=
   match l with
   | [] => []
